@@ -441,6 +441,37 @@ func (o *Oracle) judgeAuthCallback(e *Exchange) {
 	nv := newSessionCookie(e, name)
 	_, rq, _ := requestPath(e.Target)
 	q, _ := url.ParseQuery(rq)
+	if e.Overlap {
+		// two callbacks in flight at once: the provider's answers that count are those for this request's code
+		// (the code exchange carrying it, then the userinfo call carrying the access token that exchange returned)
+		own := *e
+		own.Children = nil
+		at := ""
+		for _, c := range e.Children {
+			if c.Link != L3 {
+				own.Children = append(own.Children, c)
+				continue
+			}
+			switch endpointOf(c.Path) {
+			case "token":
+				if code := q.Get("code"); code != "" && strings.Contains(string(c.ReqBody), "code="+url.QueryEscape(code)) {
+					own.Children = append(own.Children, c)
+					var t struct {
+						AccessToken string `json:"access_token"`
+					}
+					if json.Unmarshal(c.RespBody, &t) == nil {
+						at = t.AccessToken
+					}
+				}
+			case "userinfo":
+				if at != "" && c.ReqHdr.Get("Authorization") == "Bearer "+at {
+					own.Children = append(own.Children, c)
+				}
+			}
+		}
+		e = &own
+		o.res.cover("C10|world-twin|callback-judged")
+	}
 	email, verified, wf := o.vouched(e)
 	injected := ""
 	for _, c := range e.Children {
